@@ -261,7 +261,7 @@ func drvPaths(r *rand.Rand, n int) [][]Action {
 // 2-6 paths competing for one base name, plus hints that occupy the numbered variants
 func drvCompete(r *rand.Rand, n int) [][]Action {
 	out := [][]Action{}
-	bases := []string{"d", "fmt", "rand", "go", "x1", "pkg"}
+	bases := []string{"d", "fmt", "rand", "go", "x1", "pkg", "int", "uint", "float", "complex"} // numbered variants of the last four are predeclared (int8, float32, ...)
 	for i := 0; i < n; i++ {
 		st := &symtab{}
 		b := bases[r.Intn(len(bases))]
@@ -270,12 +270,12 @@ func drvCompete(r *rand.Rand, n int) [][]Action {
 		k := 2 + r.Intn(5)
 		if i%10 == 0 {
 			// many competitors: the numeric suffix goes beyond one digit
-			for j := 0; j < 8+r.Intn(25); j++ {
+			for j := 0; j < 8+r.Intn(62); j++ {
 				variants = append(variants, fmt.Sprintf("many%d/%s", j, b))
 			}
 			k = len(variants)
 		}
-		h := []Action{newAct("", []string{"", "pkg"}[r.Intn(2)])}
+		h := []Action{newAct("", []string{"", "", "pkg"}[r.Intn(3)])}
 		for j := 0; j < k; j++ {
 			p := variants[j]
 			switch r.Intn(5) {
